@@ -517,6 +517,11 @@ func c05Corruptions(toks []tok, visit func(class string, pos int, out []tok, mus
 			ins := append(append(clone()[:i], p(b)), toks[i:]...)
 			visit("insert"+b, i, ins, !bracketBalanced(ins))
 		}
+		// a two-character operator written as two tokens (significant whitespace): never valid
+		if t.kind == tPunct && len(t.text) == 2 && strings.Contains("=~ != !~ |= |~ == >= <=", t.text) {
+			sp := append(append(clone()[:i], p(t.text[:1]), p(t.text[1:])), toks[i+1:]...)
+			visit("split", i, sp, true)
+		}
 		// swap with the next token
 		if i+1 < len(toks) {
 			sw := clone()
